@@ -1,7 +1,8 @@
 #!/usr/bin/env python3
 """Confirms a seeded change produced by a sub-agent and runs the checks against it.
 
-usage: seed_eval.py <ID> <k> [--keep]     (reads /tmp/seed/out/<ID>/{patch<k>.diff,demo<k>_test.go,meta<k>.json})
+usage: seed_eval.py <ID> <k> [--keep]     (reads $SEED_SRC/out/<ID>/{patch<k>.diff,demo<k>_test.go,meta<k>.json}; SEED_SRC defaults to /tmp/seed;
+       the result is stored as /verif/seeded/<ID>-$SEED_TAG<k>)
 
 1. in the scratch worktree /tmp/seed/wt-<ID>: patch applies, builds, vets, the 972-test baseline
    still passes, the demonstration fails with the patch and passes without it;
@@ -27,8 +28,10 @@ def clean(wt):
 
 def main():
     pid, k = sys.argv[1], sys.argv[2]
-    src = f"/tmp/seed/out/{pid}"
-    wt = f"/tmp/seed/wt-{pid}"
+    root = os.environ.get("SEED_SRC", "/tmp/seed")   # second round: SEED_SRC=/tmp/seed2 SEED_TAG=r2-
+    tag = os.environ.get("SEED_TAG", "")
+    src = f"{root}/out/{pid}"
+    wt = f"{root}/wt-{pid}"
     patch = f"{src}/patch{k}.diff"
     demo = f"{src}/demo{k}_test.go"
     meta = json.load(open(f"{src}/meta{k}.json"))
@@ -76,7 +79,7 @@ def main():
             if rc != 0:
                 print("apply to /repo failed", out)
             else:
-                evdir = "/tmp/seed/ev-%s-%s" % (pid, k)
+                evdir = "%s/ev-%s-%s" % (root, pid, k)
                 os.makedirs(evdir + "/evidence", exist_ok=True)
                 shutil.copy("/verif/known_findings.json", evdir)
                 if os.path.isdir("/verif/checker/controls"):
@@ -116,7 +119,7 @@ def main():
     for p in errors:
         print("  CHECKER-ERROR in", p, det[p].get("tail", "")[-300:])
     if confirmed or "--keep" in sys.argv:
-        d = f"/verif/seeded/{pid}-{k}"
+        d = f"/verif/seeded/{pid}-{tag}{k}"
         os.makedirs(d, exist_ok=True)
         shutil.copy(patch, f"{d}/patch.diff")
         shutil.copy(demo, f"{d}/demo_test.go")
